@@ -11,8 +11,16 @@ use serde_json::json;
 
 use crate::common::*;
 
+/// representatives of the class "other": a, e-acute, and characters that merely LOOK like blanks or
+/// line breaks but are content for RFC 9580 section 7 (only space and tab are trimmed, only LF splits)
+const OTHERS: [&str; 7] = ["a", "\u{e9}", "\u{3000}", "\u{a0}", "\x0c", "\x0b", "\u{2028}"];
+
 fn conc(sym: &[String], variant: usize) -> String {
-    String::from_utf8(concretize_text(sym, variant)).expect("utf8 representatives")
+    let mut out = String::new();
+    for b in concretize_text(sym, 0) {
+        if b == b'a' { out.push_str(OTHERS[variant]) } else { out.push(b as char) }
+    }
+    out
 }
 
 /// split an armored cleartext document into (head incl. blank line, body text, tail from the signature armor)
@@ -44,8 +52,12 @@ pub fn run(cases_path: &str, out_path: &str, tier: &str, seed: u64) {
         if t != escaped || t != signed {
             nontrivial.fetch_add(1, std::sync::atomic::Ordering::Relaxed);
         }
-        for variant in [0usize, 1] {
-            if variant == 1 && !t.iter().any(|x| x == "X") {
+        let ci = c["ci"].as_u64().unwrap_or(0) as usize;
+        for variant in 0..OTHERS.len() {
+            if variant >= 1 && !t.iter().any(|x| x == "X") {
+                continue;
+            }
+            if variant >= 2 && !thorough && (ci + variant) % 2 != 0 {
                 continue;
             }
             let text = conc(&t, variant);
